@@ -222,6 +222,19 @@ func runGrpcJSON(res *vkit.Result, c Case) {
 				fail("metadata", "entry %s: metadata %s = %v on the wire, want %q", mk, k, got, v)
 			}
 		}
+		// "the entry's metadata": keys of the generator's namespace that the entry does not
+		// define must not arrive (they could only come from another entry)
+		for _, k := range []string{"x-a", "x-mixed-case", "authorization", "x-trace"} {
+			defined := false
+			for ek := range e.MD {
+				if strings.ToLower(ek) == k {
+					defined = true
+				}
+			}
+			if got := call.MD.Get(k); !defined && len(got) > 0 {
+				fail("foreign-metadata", "entry %s does not define metadata %s, the call carries %v", mk, k, got)
+			}
+		}
 		if !call.HasDeadline {
 			fail("deadline", "entry %s: call has no deadline (timeout %dms configured)", mk, c.TimeoutMs)
 		} else if call.Timeout > time.Duration(c.TimeoutMs)*time.Millisecond+50*time.Millisecond {
@@ -377,7 +390,13 @@ func main() {
 			runScenario(res, c)
 		} else {
 			c.Kind = "grpcjson"
-			for k := 3 + rng.Intn(10); k > 0; k-- {
+			n := 3 + rng.Intn(10)
+			if i%4 == 3 {
+				// long files: ammo objects are recycled through the provider's pool only after
+				// its queue (128 entries) has been filled once
+				n = 200 + rng.Intn(400)
+			}
+			for k := n; k > 0; k-- {
 				c.Entries = append(c.Entries, genEntry(rng, vid))
 				vid++
 			}
